@@ -40,7 +40,7 @@ def add_writes(rng, tests, buffered=True):
         for ph in phases:
             if rng.random() < 0.8:
                 # contextlib.redirect_stdout re-installs sys.stdout only: what follows it is written to stdout (the model has one switch)
-                stream = rng.choice(['stdout', 'stdout', 'stdout', 'print', 'stdout.buffer'] + ([] if (T.get('redirect_sub') and ph not in ('setUp', 'body')) else ['stderr']))
+                stream = rng.choice(['stdout', 'stdout', 'stdout', 'print', 'stdout.buffer', 'stdout.badbytes'] + ([] if (T.get('redirect_sub') and ph not in ('setUp', 'body')) else ['stderr']))
                 text = 'TOK_%d_' % tok + rng.choice(['', '\n', ' more text\n'])
                 wr[ph] = [[stream, text]]
                 if rng.random() < 0.15:
